@@ -10,7 +10,15 @@
 //              and the AdjInputData the real reader produced (rd ...)
 //   adjfile <path>   reads an <adj-input-data> file (gama-g3 --project-equations) and adjusts it
 //              with class Adj, all four algorithms: prints defect and x
-// protocol:   xml <document on one line>  |  adjrt  |  adjfile <path>
+//   gpt <role> xyz|blh a b c geoid dB dL sN sE sU iN iE iU corX corY corZ
+//              a point for the next `lin` (role = frm | to | left | right | pt); states 0 unused 1 fixed 2 free
+//              3 constr are set on the Parameter objects directly (no update_parameters), `ind` members as given
+//   lin <type> v1 v2 v3 from_dh to_dh left_dh right_dh tol_abs
+//              calls the real Model::linearization(T*) once on a fresh sparse matrix; prints what the
+//              linearisation reads from the points (data gpt ...) and what it produced (res row / rhs / rej)
+//   parse <document on one line>
+//              DataParser only: prints the observations it built, record by record (data ob ...)
+// protocol:   xml <document on one line>  |  adjrt  |  adjfile <path>  |  gpt ...  |  lin ...  |  parse ...
 #include <cstdio>
 #include <cstring>
 #include <cstdlib>
@@ -78,6 +86,125 @@ static g3::Model* parse_model(const std::string& text, std::string& err)
   }
   if (!err.empty()) { delete model; model = nullptr; }
   return model;
+}
+
+static void set_state(g3::Parameter& p, int s)
+{
+  switch (s) {
+  case 0: p.set_unused(); break;
+  case 1: p.set_fixed();  break;
+  case 2: p.set_free();   break;
+  default: p.set_constr(); break;
+  }
+}
+
+static void print_obs(const g3::Observation* o)
+{
+  std::cout << "data ob " << (o->active() ? 1 : 0) << " ";
+  if (auto v = dynamic_cast<const g3::Vector*>(o))
+    std::cout << "vector " << v->from << " " << v->to << " " << hex(v->dx()) << " " << hex(v->dy()) << " "
+              << hex(v->dz()) << " " << hex(v->from_dh) << " " << hex(v->to_dh);
+  else if (auto x = dynamic_cast<const g3::XYZ*>(o))
+    std::cout << "xyz " << x->id << " " << hex(x->x()) << " " << hex(x->y()) << " " << hex(x->z());
+  else if (auto d = dynamic_cast<const g3::Distance*>(o))
+    std::cout << "distance " << d->from << " " << d->to << " " << hex(d->obs()) << " " << hex(d->from_dh) << " " << hex(d->to_dh);
+  else if (auto h = dynamic_cast<const g3::Height*>(o))
+    std::cout << "height " << h->id << " " << hex(h->obs());
+  else if (auto hd = dynamic_cast<const g3::HeightDiff*>(o))
+    std::cout << "hdiff " << hd->from << " " << hd->to << " " << hex(hd->obs()) << " " << hex(hd->from_dh) << " " << hex(hd->to_dh);
+  else if (auto a = dynamic_cast<const g3::Angle*>(o))
+    std::cout << "angle " << a->from << " " << a->left << " " << a->right << " " << hex(a->obs()) << " "
+              << hex(a->from_dh) << " " << hex(a->left_dh) << " " << hex(a->right_dh);
+  else if (auto z = dynamic_cast<const g3::ZenithAngle*>(o))
+    std::cout << "zenith " << z->from << " " << z->to << " " << hex(z->obs()) << " " << hex(z->from_dh) << " " << hex(z->to_dh);
+  else if (auto az = dynamic_cast<const g3::Azimuth*>(o))
+    std::cout << "azimuth " << az->from << " " << az->to << " " << hex(az->obs()) << " " << hex(az->from_dh) << " " << hex(az->to_dh);
+  else std::cout << "other";
+  std::cout << "\n";
+}
+
+// one direct call of Model::linearization(T*) on points built from `gpt` lines
+static void run_lin(const std::vector<std::vector<std::string>>& gpts, const std::vector<std::string>& t)
+{
+  if (t.size() != 10) { std::cout << "bad-op\n"; return; }
+  g3::Model m;
+  for (const auto& g : gpts) {
+    if (g.size() != 19) { std::cout << "bad-op\n"; return; }
+    g3::Point* p = m.get_point(g[1]);
+    double a = vp::unhex(g[3]), b = vp::unhex(g[4]), c = vp::unhex(g[5]);
+    if (g[2] == "xyz") p->set_xyz(a, b, c); else p->set_blh(a, b, c);
+    p->set_geoid(vp::unhex(g[6]));
+    p->dB.set_init_value(vp::unhex(g[7]));
+    p->dL.set_init_value(vp::unhex(g[8]));
+    set_state(p->N, std::atoi(g[9].c_str()));
+    set_state(p->E, std::atoi(g[10].c_str()));
+    set_state(p->U, std::atoi(g[11].c_str()));
+    p->N.set_index(std::size_t(std::atoi(g[12].c_str())));
+    p->E.set_index(std::size_t(std::atoi(g[13].c_str())));
+    p->U.set_index(std::size_t(std::atoi(g[14].c_str())));
+    p->X_.set_correction(vp::unhex(g[15]));
+    p->Y_.set_correction(vp::unhex(g[16]));
+    p->Z_.set_correction(vp::unhex(g[17]));
+    // g[18] reserved
+  }
+  for (auto i = m.points->begin(); i != m.points->end(); ++i) {
+    g3::Point* p = *i;
+    std::cout << "data gpt " << p->name << " " << hex(p->X()) << " " << hex(p->Y()) << " " << hex(p->Z()) << " "
+              << hex(p->X.init_value()) << " " << hex(p->Y.init_value()) << " " << hex(p->Z.init_value()) << " "
+              << hex(p->B()) << " " << hex(p->L()) << " " << hex(p->H()) << " " << hex(p->geoid()) << " "
+              << hex(p->dB()) << " " << hex(p->dL()) << " "
+              << hex(p->r11) << " " << hex(p->r12) << " " << hex(p->r13) << " "
+              << hex(p->r21) << " " << hex(p->r22) << " " << hex(p->r23) << " "
+              << hex(p->r31) << " " << hex(p->r32) << " " << hex(p->r33) << " "
+              << st(p->N) << " " << st(p->E) << " " << st(p->U) << " "
+              << p->N.ind << " " << p->E.ind << " " << p->U.ind << "\n";
+  }
+  double v[7];
+  for (int k = 0; k < 7; k++) v[k] = vp::unhex(t[2 + k]);
+  m.set_tol_abs(vp::unhex(t[9]));
+  std::cout << "data lin " << t[1];
+  for (int k = 0; k < 7; k++) std::cout << " " << hex(v[k]);
+  std::cout << " " << hex(m.get_tol_abs()) << "\n";
+  const std::string& ty = t[1];
+  const int rows = (ty == "vector" || ty == "xyz") ? 3 : 1;
+  m.A = new SparseMatrix<>(64, rows, 64);
+  m.rhs.reset(rows);
+  m.rhs_ind = 0;
+  g3::Observation* obs = nullptr;
+  bool need_ft = false, need_pt = false, need_lr = false;
+  if (ty == "distance")     { auto o = new g3::Distance;    o->from = "frm"; o->to = "to"; o->set(v[0]); o->from_dh = v[3]; o->to_dh = v[4]; obs = o; need_ft = true; }
+  else if (ty == "zenith")  { auto o = new g3::ZenithAngle; o->from = "frm"; o->to = "to"; o->set(v[0]); o->from_dh = v[3]; o->to_dh = v[4]; obs = o; need_ft = true; }
+  else if (ty == "azimuth") { auto o = new g3::Azimuth;     o->from = "frm"; o->to = "to"; o->set(v[0]); o->from_dh = v[3]; o->to_dh = v[4]; obs = o; need_ft = true; }
+  else if (ty == "hdiff")   { auto o = new g3::HeightDiff;  o->from = "frm"; o->to = "to"; o->set(v[0]); o->from_dh = v[3]; o->to_dh = v[4]; obs = o; need_ft = true; }
+  else if (ty == "vector")  { auto o = new g3::Vector;      o->from = "frm"; o->to = "to"; o->set_dxyz(v[0], v[1], v[2]); o->from_dh = v[3]; o->to_dh = v[4]; obs = o; need_ft = true; }
+  else if (ty == "xyz")     { auto o = new g3::XYZ;         o->id = "pt"; o->set_xyz(v[0], v[1], v[2]); obs = o; need_pt = true; }
+  else if (ty == "height")  { auto o = new g3::Height;      o->id = "pt"; o->set(v[0]); obs = o; need_pt = true; }
+  else if (ty == "angle")   { auto o = new g3::Angle;       o->from = "frm"; o->left = "left"; o->right = "right"; o->set(v[0]);
+                              o->from_dh = v[3]; o->left_dh = v[5]; o->right_dh = v[6]; obs = o; need_lr = true; }
+  else { std::cout << "bad-op\n"; return; }
+  std::unique_ptr<g3::Observation> hold(obs);
+  auto has = [&](const char* n) { return m.points->find(n) != nullptr; };
+  if ((need_ft && !(has("frm") && has("to"))) || (need_pt && !has("pt")) || (need_lr && !(has("frm") && has("left") && has("right"))))
+    { std::cout << "bad-op\n"; return; }
+  if (auto o = dynamic_cast<g3::Distance*>(obs))         m.linearization(o);
+  else if (auto o = dynamic_cast<g3::ZenithAngle*>(obs)) m.linearization(o);
+  else if (auto o = dynamic_cast<g3::Azimuth*>(obs))     m.linearization(o);
+  else if (auto o = dynamic_cast<g3::HeightDiff*>(obs))  m.linearization(o);
+  else if (auto o = dynamic_cast<g3::Vector*>(obs))      m.linearization(o);
+  else if (auto o = dynamic_cast<g3::XYZ*>(obs))         m.linearization(o);
+  else if (auto o = dynamic_cast<g3::Height*>(obs))      m.linearization(o);
+  else if (auto o = dynamic_cast<g3::Angle*>(obs))       m.linearization(o);
+  for (int k = 1; k <= rows; k++) {
+    double* n = m.A->begin(k); double* e = m.A->end(k);
+    std::cout << "res row " << k << " " << (e - n);
+    for (int* i = m.A->ibegin(k); n != e; n++, i++) std::cout << " " << *i << " " << hex(*n);
+    std::cout << "\n";
+  }
+  std::cout << "res rhs " << rows;
+  for (int k = 1; k <= rows; k++) std::cout << " " << hex(m.rhs(k));
+  std::cout << "\n";
+  std::cout << "res rej " << (obs->active() ? 0 : 1) << " " << m.rejected_obs.size() << "\n";
+  m.rejected_obs.clear();      // holds a pointer to the observation deleted below
 }
 
 static void print_sparse(const char* pfx, const SparseMatrix<>* A)
@@ -217,10 +344,11 @@ static AdjInputData* read_adj(const std::string& text, std::list<DataObject::Bas
 int main()
 {
   std::unique_ptr<g3::Model> model;
+  std::vector<std::vector<std::string>> gpts;
   std::string line;
   bool is_case;
   while (vp::next(line, is_case)) {
-    if (is_case) { model.reset(); continue; }
+    if (is_case) { model.reset(); gpts.clear(); continue; }
     std::string op = line.substr(0, line.find(' '));
     std::string arg = line.size() > op.size() ? line.substr(op.size() + 1) : "";
     if (op == "xml") {
@@ -242,7 +370,8 @@ int main()
         std::cout << "data pt " << p->name << " " << hex(p->B()) << " " << hex(p->L()) << " "
                   << hex(p->X()) << " " << hex(p->Y()) << " " << hex(p->Z()) << " " << hex(p->H()) << " "
                   << hex(p->has_geoid() ? p->geoid() : 0.0) << " " << p->has_xyz() << " " << p->has_blh() << " " << p->has_geoid()
-                  << " " << st(p->N) << " " << st(p->E) << " " << st(p->U) << "\n";
+                  << " " << st(p->N) << " " << st(p->E) << " " << st(p->U)
+                  << " " << hex(p->dB()) << " " << hex(p->dL()) << "\n";
       }
       int ci = 0;
       for (auto c = m->obsdata.clusters.begin(); c != m->obsdata.clusters.end(); ++c, ++ci) {
@@ -252,28 +381,7 @@ int main()
         std::cout << "data cl " << nobs << " " << nact << " " << C.dim() << " " << C.bandWidth();
         for (auto q = C.begin(); q != C.end(); ++q) std::cout << " " << hex(*q);
         std::cout << "\n";
-        for (auto o : (*c)->observation_list) {
-          std::cout << "data ob " << (o->active() ? 1 : 0) << " ";
-          if (auto v = dynamic_cast<g3::Vector*>(o))
-            std::cout << "vector " << v->from << " " << v->to << " " << hex(v->dx()) << " " << hex(v->dy()) << " "
-                      << hex(v->dz()) << " " << hex(v->from_dh) << " " << hex(v->to_dh);
-          else if (auto x = dynamic_cast<g3::XYZ*>(o))
-            std::cout << "xyz " << x->id << " " << hex(x->x()) << " " << hex(x->y()) << " " << hex(x->z());
-          else if (auto d = dynamic_cast<g3::Distance*>(o))
-            std::cout << "distance " << d->from << " " << d->to << " " << hex(d->obs()) << " " << hex(d->from_dh) << " " << hex(d->to_dh);
-          else if (auto h = dynamic_cast<g3::Height*>(o))
-            std::cout << "height " << h->id << " " << hex(h->obs());
-          else if (auto hd = dynamic_cast<g3::HeightDiff*>(o))
-            std::cout << "hdiff " << hd->from << " " << hd->to << " " << hex(hd->obs());
-          else if (auto a = dynamic_cast<g3::Angle*>(o))
-            std::cout << "angle " << a->from << " " << a->left << " " << a->right << " " << hex(a->obs());
-          else if (auto z = dynamic_cast<g3::ZenithAngle*>(o))
-            std::cout << "zenith " << z->from << " " << z->to << " " << hex(z->obs());
-          else if (auto az = dynamic_cast<g3::Azimuth*>(o))
-            std::cout << "azimuth " << az->from << " " << az->to << " " << hex(az->obs());
-          else std::cout << "other";
-          std::cout << "\n";
-        }
+        for (auto o : (*c)->observation_list) print_obs(o);
       }
       // ---- results
       for (auto i = m->points->begin(); i != m->points->end(); ++i) {
@@ -352,6 +460,19 @@ int main()
         }
       }
       for (auto o : objects) delete o;
+    }
+    else if (op == "gpt") gpts.push_back(vp::tokens(line));
+    else if (op == "lin") {
+      try { run_lin(gpts, vp::tokens(line)); }
+      catch (const Exception::matvec& e) { std::cout << "throw matvec " << e.what() << "\n"; }
+      catch (...) { std::cout << "throw unknown\n"; }
+    }
+    else if (op == "parse") {
+      std::string err;
+      std::unique_ptr<g3::Model> pm(parse_model(arg, err));
+      if (!pm) { std::cout << "throw " << (err.empty() ? "no-model" : err) << "\n"; continue; }
+      for (auto c = pm->obsdata.clusters.begin(); c != pm->obsdata.clusters.end(); ++c)
+        for (auto o : (*c)->observation_list) print_obs(o);
     }
     else std::cout << "bad-op\n";
   }
